@@ -519,6 +519,112 @@ def generate(repo):
         return None
     g.fact('adapterScalarPassThrough', 'prysm/x/polarization.py:jones_adapter', adapter_passthrough)
 
+    # ------------------------------------------------------------------ Jones vectors (Session 3)
+    def _vec_target(t, name, batched):
+        """`v[i]` (scalar branch) / `v[..., i, 0]` (array branch) / `v[..., i]` -> i, else None"""
+        if not (isinstance(t, ast.Subscript) and isinstance(t.value, ast.Name) and t.value.id == name):
+            return None
+        sl = t.slice.elts if isinstance(t.slice, ast.Tuple) else [t.slice]
+        vals = [e.value if isinstance(e, ast.Constant) else None for e in sl]
+        if batched == 'col' and len(vals) == 3 and vals[0] is Ellipsis and vals[1] in (0, 1) and vals[2] == 0:
+            return vals[1]
+        if batched == 'last' and len(vals) == 2 and vals[0] is Ellipsis and vals[1] in (0, 1):
+            return vals[1]
+        if batched == 'plain' and len(vals) == 1 and vals[0] in (0, 1) and not isinstance(vals[0], bool):
+            return vals[0]
+        return None
+
+    def _vec_chain(stmts, name, batched, tr):
+        term, seen = 'V2.zero', False
+        for st in stmts:
+            if isinstance(st, ast.Assign) and len(st.targets) == 1:
+                if isinstance(st.targets[0], ast.Name) and st.targets[0].id == name:
+                    if not (isinstance(st.value, ast.Call) and ast.unparse(st.value.func) == '_empty_pol_vector'):
+                        raise Untranslatable(f'{name} is not created by _empty_pol_vector')
+                    term, seen = 'V2.zero', True
+                    continue
+                i = _vec_target(st.targets[0], name, batched)
+                if i is not None:
+                    if not seen:
+                        raise Untranslatable('component write before the vector exists')
+                    term = f'(V2.set {term} {i} {tr.expr(st.value)})'
+                    continue
+                if name in _stored_names(st):
+                    raise Untranslatable(f'unrecognised write to {name}: {ast.unparse(st)[:50]}')
+            elif name in _stored_names(st):
+                raise Untranslatable(f'unrecognised write to {name}: {ast.unparse(st)[:50]}')
+        if not seen:
+            raise Untranslatable(f'{name} never created')
+        return term
+
+    def linpol():
+        fn = get_def(po, 'linear_pol_vector')
+        if [a.arg for a in fn.args.args] != ['angle', 'degrees']:
+            raise Untranslatable('signature of linear_pol_vector')
+        top = [st for st in fn.body if not (isinstance(st, ast.Expr) and isinstance(st.value, ast.Constant))]
+        ifs = [st for st in top if isinstance(st, ast.If)]
+        if len(ifs) != 2 or ast.unparse(ifs[0].test) != 'degrees' or ifs[0].orelse or len(ifs[0].body) != 1 \
+                or not isinstance(ifs[0].body[0], ast.Assign) or ast.unparse(ifs[0].body[0].targets[0]) != 'angle':
+            raise Untranslatable('`if degrees:` does not just convert angle')
+        conv = Tr({'angle': 'angle', 'np.pi': 'pi'}, 'num').expr(ifs[0].body[0].value)
+        env = straight_env([st for st in top if isinstance(st, ast.Assign)], {'np.cos(angle)': 'c', 'np.sin(angle)': 's'})
+        for st in top:      # the trigonometric functions are taken AFTER the conversion
+            if isinstance(st, ast.Assign) and ('np.cos(angle)' in ast.unparse(st) or 'np.sin(angle)' in ast.unparse(st)) \
+                    and top.index(st) < top.index(ifs[0]):
+                raise Untranslatable('cos / sin taken before the degree conversion')
+        tr = Tr(env, 'num')
+        br = ifs[1]
+        if ast.unparse(br.test).replace(' ', '').replace('"', "'") != "hasattr(angle,'ndim')" or not br.orelse:
+            raise Untranslatable('array / scalar branch not recognised')
+        arr = _vec_chain(br.body, 'pol_vector', 'col', tr)
+        sca = _vec_chain(br.orelse, 'pol_vector', 'plain', tr)
+        if [ast.unparse(r) for r in find_returns(fn)] != ['pol_vector']:
+            raise Untranslatable('return')
+        dflt = ast.literal_eval(default_of(fn, 'degrees'))
+        return (f'def linPolAngleFromDegrees (pi angle : K) : K := {conv}\n'
+                f'def linPolDegreesDefault : Bool := {"true" if dflt else "false"}\n'
+                f'def linPolArray (c s : K) : V2 K := {arr}\n'
+                f'def linPolScalar (c s : K) : V2 K := {sca}')
+    g.item('linear_pol_vector', 'prysm/x/polarization.py:linear_pol_vector', lambda: get_def(po, 'linear_pol_vector'), linpol,
+           'def linPolAngleFromDegrees (pi angle : K) : K := angle * pi / Num.ofInt 180\ndef linPolDegreesDefault : Bool := true\n'
+           f'def linPolArray (c s : K) : V2 K := {M}.linPol c s\ndef linPolScalar (c s : K) : V2 K := {M}.linPol c s')
+
+    def circpol():
+        fn = get_def(po, 'circular_pol_vector')
+        if [a.arg for a in fn.args.args] != ['handedness', 'shape']:
+            raise Untranslatable('signature of circular_pol_vector')
+        tr = Tr({'np.sqrt(2)': 'r2', '1j': 'I', '-1j': '(-I)'}, 'num')
+        top = [st for st in fn.body if not (isinstance(st, ast.Expr) and isinstance(st.value, ast.Constant))]
+        ifs = [st for st in top if isinstance(st, ast.If)]
+        if len(ifs) != 1:
+            raise Untranslatable('expected one handedness chain')
+        common = [st for st in top if st is not ifs[0] and not isinstance(st, ast.Return)]
+        arms = {}
+        node = ifs[0]
+        raises = False
+        while True:
+            if not (isinstance(node.test, ast.Compare) and ast.unparse(node.test.left) == 'handedness' and isinstance(node.test.ops[0], ast.Eq)):
+                raise Untranslatable('handedness test')
+            arms[ast.literal_eval(node.test.comparators[0])] = _vec_chain(common + node.body, 'pol_vector', 'last', tr)
+            if len(node.orelse) == 1 and isinstance(node.orelse[0], ast.If):
+                node = node.orelse[0]
+            else:
+                raises = len(node.orelse) == 1 and isinstance(node.orelse[0], ast.Raise)
+                if node.orelse and not raises:
+                    raise Untranslatable('else branch')
+                break
+        if sorted(arms) != ['left', 'right']:
+            raise Untranslatable(f'handedness values {sorted(arms)}')
+        dflt = ast.literal_eval(default_of(fn, 'handedness'))
+        if dflt not in arms:
+            raise Untranslatable('default handedness')
+        return (f'def circPol (I r2 : K) (left : Bool) : V2 K := if left then {arms["left"]} else {arms["right"]}\n'
+                f'def circDefaultLeft : Bool := {"true" if dflt == "left" else "false"}\n'
+                f'def circUnknownHandednessRaises : Bool := {"true" if raises else "false"}')
+    g.item('circular_pol_vector', 'prysm/x/polarization.py:circular_pol_vector', lambda: get_def(po, 'circular_pol_vector'), circpol,
+           f'def circPol (I r2 : K) (left : Bool) : V2 K := {M}.circPol I r2 left\ndef circDefaultLeft : Bool := true\n'
+           'def circUnknownHandednessRaises : Bool := true')
+
     # ------------------------------------------------------------------ documented default arguments
     def defaults():
         tr = Tr({'np.pi': 'pi'}, 'num')
